@@ -200,3 +200,22 @@ Example format_full_examples :
   (* "{a[k]:.2f}".format(a={"k": 1.5}) : fine *)
   py_format_full [123;97;91;107;93;58;46;50;102;125] (mk_fargs [] [([97], FDict [(FKStr [107], FFloat)])]) = FVFine.
 Proof. vm_compute. repeat split; reflexivity. Qed.
+
+(* ---------------------------------------------------------------- f-strings *)
+(* visit_FormattedValue on a literal operand computes format(conv(value), spec)
+   with CPython's own functions and (after the fix) reports when that raises.
+   In the specification a replacement field of an f-string is the str.format
+   field "{0<conv>:<spec>}" applied to the operand: *)
+Lemma eval_spec_literals : forall a sp st cur,
+  eval_spec_items a (map SLit sp) st cur = (VF, Some sp, st, cur).
+Proof.
+  intros a sp st cur. induction sp as [|c sp IH]; simpl; [reflexivity|]. rewrite IH. reflexivity.
+Qed.
+
+Theorem fstring_field_is_format_field : forall o conv spec,
+  eval_fields (mk_fargs [o] []) [mk_tf (ANum 0) [] conv (map SLit spec)] AInit 0 =
+  check_spec (apply_conv o conv) spec.
+Proof.
+  intros o conv spec. simpl. rewrite eval_spec_literals.
+  destruct (check_spec (apply_conv o conv) spec); reflexivity.
+Qed.
